@@ -756,6 +756,31 @@ func (h *H) PlayRoundOrder(order string) *fakes.Block {
 	return blk
 }
 
+// SendVotes makes the other members vote for the smallest view >= max(current view, 1) that the node leads (valid VIEW_CHANGEs
+// without proofs). With quorum weight among the others the node gets elected, requests a fresh proposal and sends a NEW_VIEW.
+func (h *H) SendVotes() (uint64, bool) {
+	height, view := h.HV()
+	if height == 0 {
+		return 0, false
+	}
+	v := view
+	if v == 0 {
+		v = 1
+	}
+	for k := 0; k < h.Cfg.N && h.LeaderIdx(height, v) != h.Cfg.Me; k++ {
+		v++
+	}
+	if h.LeaderIdx(height, v) != h.Cfg.Me {
+		return 0, false
+	}
+	for _, o := range h.Others() {
+		vs := sim.VoteSpec{Type: sim.TVC, Inst: uint64(Instance), H: height, V: v}
+		vs.Sender = sim.SigSpec{ID: h.IDs[o], Sig: h.sign(o, height, vs.HeaderRaw())}
+		h.Send(&sim.MsgSpec{Union: sim.UVC, Vote: &vs})
+	}
+	return v, true
+}
+
 // Flood hands n cheap, valid-looking but irrelevant messages (PREPAREs of a past view from another member) to the node.
 func (h *H) Flood(n int) bool {
 	height, _ := h.HV()
